@@ -407,6 +407,7 @@ func c15Spaces(thorough bool) []*space {
 		listSpace("degenerate/empty-application-data", "TunnelReq, RoutingInd, cemi.Pack (L_Data.req/con/ind each) and LData.Pack x empty application data x every in-domain TPCI/APCI combination of an application unit", appOnly(inDomainOnly(tpciValues(ldBases(ldKinds...), nil)))),
 		listSpace("oversize/joint-info-x-data", "the same carriers x additional info length {255,256,257,600} x application data length {0,254,255,256,257,600} (combinations with at least one oversize or empty part)", joint),
 		listSpace("oversize/friendly-name", "SearchRes, DescriptionRes and DeviceInformationBlock on its own x name of every length 30..80 x {ASCII, ISO 8859-1 high half, mixed}", nameLengthValues(devKinds, 30, 80)),
+		listSpace("oversize/friendly-name-one-two-octet-character", "DeviceInformationBlock on its own x ASCII name of every length 30..80 with one two-octet (UTF-8) ISO 8859-1 character at every position", oneHighCharNameValues(devKinds[2:], 30, 80)),
 		listSpace("non-latin1/friendly-name", "SearchRes, DescriptionRes and DeviceInformationBlock on its own x name of every length 1..80 with one character outside ISO 8859-1 at the first, middle or last position", nonLatinNameValues(devKinds, 80)),
 		listSpace("search-response-with-further-blocks", "SearchRes x every sequence of 0..3 further description blocks over five shapes (no encoder exists for them: dropped or not, the size must equal the octets written)", searchResBlockValues()),
 		listSpace("description-response-with-data-less-blocks", "DescriptionRes x every sequence of 1..3 further description blocks (six shapes) that contains a block without data (size 2; the decoder drops such a block, so these values are outside C02's round trip)", dataLessBlockValues()),
